@@ -553,6 +553,10 @@ func (env *Env) elabCall(x *ECall) Val {
 			}
 		}
 		env.fail("addr(): no field %s", sel.Name)
+	case "toreal":
+		return Val{T: app("to_real", arg(0).T), Ty: tyReal}
+	case "rdiv":
+		return Val{T: app("/", arg(0).T, arg(1).T), Ty: tyReal}
 	case "deref":
 		v := arg(0)
 		if v.Ty.Go == nil {
@@ -611,7 +615,7 @@ func (env *Env) callSpecFn(name string, args []Val) Val {
 func (e *Exec) ensureSpecFn(name string, from *Env) *specFnInfo {
 	if info, ok := e.specFnDone[name]; ok {
 		if info.busy {
-			from.fail("recursive spec function %s is not supported", name)
+			info.rec = true // recursive: emitted with define-fun-rec after a second elaboration pass
 		}
 		return info
 	}
@@ -656,10 +660,18 @@ func (e *Exec) ensureSpecFn(name string, from *Env) *specFnInfo {
 		info.heaps = append(info.heaps, h)
 	}
 	sort.Strings(info.heaps)
+	if info.rec {
+		// second pass: the recursive calls now pass the heap parameters
+		body = env.elab(f.Body)
+	}
 	for _, h := range info.heaps {
 		binders = append(binders, fmt.Sprintf("(%s %s)", sym("h!"+h), e.heapSort[h]))
 	}
-	e.S.add(fmt.Sprintf("(define-fun %s (%s) %s %s)", sym(name), strings.Join(binders, " "), ret.Sort(), body.T))
+	kw := "define-fun"
+	if info.rec {
+		kw = "define-fun-rec"
+	}
+	e.S.add(fmt.Sprintf("(%s %s (%s) %s %s)", kw, sym(name), strings.Join(binders, " "), ret.Sort(), body.T))
 	e.S.declared[name] = true
 	info.busy = false
 	return info
